@@ -415,4 +415,241 @@ theorem coxDeBoor_uniform (t0 h : ℚ) (hh : 0 < h) (t : ℕ → ℚ) (ht : ∀ 
     rw [a1, c1, c2]
     field_simp
 
+
+/-! ### Mask, and the coded basis as a cardinal B-spline -/
+
+theorem mask_is_identity (dmin dmax : ℚ) (nfun p : ℕ) (hp : p < nfun) (hd : dmin < dmax)
+    (x : ℚ) (j : ℕ) (hj : j < nfun) :
+    bsplineBasis dmin dmax nfun p x j = basisRaw dmin dmax nfun p x j := by
+  unfold bsplineBasis basisWith maskWith
+  change basisRaw dmin dmax nfun p x j * _ = _
+  split
+  · simp
+  · rename_i hx
+    have hh := dx_pos dmin dmax nfun p hp hd
+    rw [basisRaw_eq_cardinal dmin dmax nfun p hp hd x j hj, cardinal_eq_zero_of_ge]; · simp
+    rw [knots_eq dmin dmax nfun p hp] at hx
+    have hx := not_lt.mp hx
+    rw [le_div_iff₀ hh]
+    unfold uniformKnot at hx ⊢
+    push_cast at hx
+    linarith
+
+theorem bsplineBasis_eq_cardinal (dmin dmax : ℚ) (nfun p : ℕ) (hp : p < nfun) (hd : dmin < dmax)
+    (x : ℚ) (j : ℕ) (hj : j < nfun) :
+    bsplineBasis dmin dmax nfun p x j
+      = cardinal p ((x - uniformKnot dmin dmax nfun p j) / dx dmin dmax nfun p) := by
+  rw [mask_is_identity dmin dmax nfun p hp hd x j hj, basisRaw_eq_cardinal dmin dmax nfun p hp hd x j hj]
+
+/-- Knot-index coordinate of a point: `u = (x − t₀)/dx`; the domain is `p ≤ u ≤ nfun`. -/
+def ucoord (dmin dmax : ℚ) (nfun p : ℕ) (x : ℚ) : ℚ :=
+  (x - uniformKnot dmin dmax nfun p 0) / dx dmin dmax nfun p
+
+theorem bsplineBasis_eq_cardinal_u (dmin dmax : ℚ) (nfun p : ℕ) (hp : p < nfun) (hd : dmin < dmax)
+    (x : ℚ) (j : ℕ) (hj : j < nfun) :
+    bsplineBasis dmin dmax nfun p x j = cardinal p (ucoord dmin dmax nfun p x - j) := by
+  rw [bsplineBasis_eq_cardinal dmin dmax nfun p hp hd x j hj]
+  have hh := dx_pos dmin dmax nfun p hp hd
+  congr 1
+  unfold ucoord
+  rw [uniformKnot_eq dmin dmax nfun p j]; field_simp; ring
+
+theorem ucoord_range (dmin dmax : ℚ) (nfun p : ℕ) (hp : p < nfun) (hd : dmin < dmax)
+    (x : ℚ) (hlo : dmin ≤ x) (hhi : x ≤ dmax) :
+    (p : ℚ) ≤ ucoord dmin dmax nfun p x ∧ ucoord dmin dmax nfun p x ≤ nfun := by
+  have hh := dx_pos dmin dmax nfun p hp hd
+  have hs := nSeg_pos nfun p hp
+  have hwidth : dmax - dmin = (nSeg nfun p : ℚ) * dx dmin dmax nfun p := by
+    unfold dx; field_simp
+  have hu : ucoord dmin dmax nfun p x = (x - dmin) / dx dmin dmax nfun p + p := by
+    unfold ucoord uniformKnot; field_simp; push_cast; ring
+  rw [hu]
+  constructor
+  · have : 0 ≤ (x - dmin) / dx dmin dmax nfun p := div_nonneg (by linarith) hh.le
+    linarith
+  · have h1 : (x - dmin) / dx dmin dmax nfun p ≤ (nSeg nfun p : ℚ) := by
+      rw [div_le_iff₀ hh]; linarith
+    have h2 : ((nSeg nfun p + p : ℕ) : ℚ) = (nfun : ℚ) := by rw [nSeg_add nfun p hp]
+    push_cast at h2
+    linarith
+
+/-! ### Moments of the cardinal B-splines (polynomial reproduction) -/
+
+theorem cardinal_at_zero (p : ℕ) (hp : 1 ≤ p) : cardinal p 0 = 0 := by
+  obtain ⟨q, rfl⟩ : ∃ q, p = q + 1 := ⟨p - 1, by omega⟩
+  rw [cardinal_recurrence, cardinal_eq_zero_of_neg q (0 - 1) (by norm_num)]
+  simp
+
+/-- Summation by parts with the B-spline recurrence: for `p ≥ 1` and `p+1 ≤ u ≤ n`,
+`(p+1)·Σ_j c_j N_{p+1}(u-j) = Σ_j (c_j (u-j) + c_{j-1} (p+1-u+j))·N_p(u-j)`. -/
+theorem sbp (p n : ℕ) (hp : 1 ≤ p) (u : ℚ) (hlo : (p : ℚ) + 1 ≤ u) (hhi : u ≤ n) (c : ℕ → ℚ) :
+    ((p : ℚ) + 1) * ∑ j ∈ range n, c j * cardinal (p + 1) (u - j)
+      = ∑ j ∈ range n, (c j * (u - j) + c (j - 1) * ((p : ℚ) + 1 - u + j)) * cardinal p (u - j) := by
+  have hp1 : ((p : ℚ) + 1) ≠ 0 := by positivity
+  have h1 : ∀ j, ((p : ℚ) + 1) * (c j * cardinal (p + 1) (u - j))
+      = c j * (u - j) * cardinal p (u - j) + c j * ((p : ℚ) + 2 - (u - j)) * cardinal p (u - (j + 1 : ℕ)) := by
+    intro j
+    rw [cardinal_recurrence]
+    have : u - (j : ℚ) - 1 = u - ((j + 1 : ℕ) : ℚ) := by push_cast; ring
+    rw [this]; field_simp
+  rw [Finset.mul_sum, Finset.sum_congr rfl (fun j _ => h1 j), Finset.sum_add_distrib]
+  -- shift the second sum
+  set F : ℕ → ℚ := fun j => c (j - 1) * ((p : ℚ) + 1 - u + j) * cardinal p (u - j) with hF
+  have hshift : ∑ j ∈ range n, c j * ((p : ℚ) + 2 - (u - j)) * cardinal p (u - (j + 1 : ℕ))
+      = ∑ j ∈ range n, F (j + 1) := by
+    apply Finset.sum_congr rfl; intro j _
+    rw [hF]; simp only [Nat.add_sub_cancel]; push_cast; ring
+  have hF0 : F 0 = 0 := by
+    rw [hF]; simp only [Nat.cast_zero, sub_zero]
+    rw [cardinal_eq_zero_of_ge p u hlo]; ring
+  have hFn : F n = 0 := by
+    rw [hF]; simp only
+    rcases lt_or_eq_of_le hhi with h | h
+    · rw [cardinal_eq_zero_of_neg p (u - n) (by linarith)]; ring
+    · rw [h, sub_self, cardinal_at_zero p hp]; ring
+  have hsum : ∑ j ∈ range n, F (j + 1) = ∑ j ∈ range n, F j := by
+    have e1 := Finset.sum_range_succ' F n
+    have e2 := Finset.sum_range_succ F n
+    rw [hF0, add_zero] at e1
+    rw [hFn, add_zero] at e2
+    rw [← e1, e2]
+  rw [hshift, hsum, ← Finset.sum_add_distrib]
+  apply Finset.sum_congr rfl; intro j _
+  rw [hF]; ring
+
+/-- Abel summation: `Σ_{j<n} j·(G(j+1) − G(j)) = n·G(n) − Σ_{j<n} G(j+1)`. -/
+theorem abel (G : ℕ → ℚ) (n : ℕ) :
+    ∑ j ∈ range n, (j : ℚ) * (G (j + 1) - G j) = n * G n - ∑ j ∈ range n, G (j + 1) := by
+  induction n with
+  | zero => simp
+  | succ n ih => rw [Finset.sum_range_succ, ih, Finset.sum_range_succ]; push_cast; ring
+
+
+theorem moment1_base (n : ℕ) (u : ℚ) (hlo : 1 ≤ u) (hhi : u ≤ n) :
+    ∑ j ∈ range n, (j : ℚ) * cardinal 1 (u - j) = u - 1 := by
+  have hc : ∀ j : ℕ, cardinal 1 (u - j)
+      = (Δ_[1]^[1] (T 1 u)) (j + 1) - (Δ_[1]^[1] (T 1 u)) j := by
+    intro j
+    rw [cardinal_shift, DB, iter_succ_apply (T 1 u) 1 j]
+    simp
+  simp_rw [hc]
+  rw [abel (Δ_[1]^[1] (T 1 u)) n]
+  have htop := iter_at_top 1 n u (le_refl 1) hhi
+  rw [htop, mul_zero, zero_sub]
+  have hG : ∀ j, (Δ_[1]^[1] (T 1 u)) (j + 1) = T 1 u (j + 1 + 1) - T 1 u (j + 1) := by
+    intro j; simp [fwdDiff]
+  simp_rw [hG]
+  rw [Finset.sum_range_sub (fun j => T 1 u (j + 1)) n]
+  have h1 : T 1 u (n + 1) = 0 := by
+    apply T_eq_zero_of_lt; push_cast; linarith
+  have h2 : T 1 u (0 + 1) = u - 1 := by
+    unfold T tpower; simp [hlo]
+  rw [h1, h2]; ring
+
+/-- First moment: `Σ_j j·N_p(u−j) = u − (p+1)/2` on `[p, n]`, every degree `p ≥ 1`. -/
+theorem moment1 (p : ℕ) (hp : 1 ≤ p) : ∀ (n : ℕ) (u : ℚ), (p : ℚ) ≤ u → u ≤ n →
+    ∑ j ∈ range n, (j : ℚ) * cardinal p (u - j) = u - ((p : ℚ) + 1) / 2 := by
+  induction p, hp using Nat.le_induction with
+  | base => intro n u hlo hhi; rw [moment1_base n u (by simpa using hlo) hhi]; norm_num
+  | succ p hp ih =>
+    intro n u hlo hhi
+    have hlo' : (p : ℚ) + 1 ≤ u := by push_cast at hlo; exact hlo
+    have hp1 : ((p : ℚ) + 1) ≠ 0 := by positivity
+    have hs := sbp p n hp u hlo' hhi (fun j => (j : ℚ))
+    have hterm : ∀ j ∈ range n,
+        ((j : ℚ) * (u - j) + ((j - 1 : ℕ) : ℚ) * ((p : ℚ) + 1 - u + j)) * cardinal p (u - j)
+          = (p : ℚ) * ((j : ℚ) * cardinal p (u - j)) + (u - p - 1) * cardinal p (u - j) := by
+      intro j _
+      rcases Nat.eq_zero_or_pos j with h0 | hpos
+      · subst h0
+        simp only [Nat.cast_zero, sub_zero]
+        rw [cardinal_eq_zero_of_ge p u hlo']; ring
+      · have : ((j - 1 : ℕ) : ℚ) = (j : ℚ) - 1 := by
+          rw [Nat.cast_sub hpos]; simp
+        rw [this]; ring
+    rw [Finset.sum_congr rfl hterm, Finset.sum_add_distrib, ← Finset.mul_sum, ← Finset.mul_sum,
+      ih n u (by linarith) hhi, sum_cardinal p n u hp (by linarith) hhi] at hs
+    have : ∑ j ∈ range n, (j : ℚ) * cardinal (p + 1) (u - j)
+        = ((p : ℚ) * (u - ((p : ℚ) + 1) / 2) + (u - p - 1) * 1) / ((p : ℚ) + 1) := by
+      rw [← hs]; field_simp
+    rw [this]; push_cast; field_simp; ring
+
+/-- Second moment: `Σ_j j²·N_p(u−j) = (u − (p+1)/2)² + (p+1)/12` on `[p, n]`, every degree `p ≥ 2`. -/
+theorem moment2 (p : ℕ) : ∀ (n : ℕ) (u : ℚ), ((p + 2 : ℕ) : ℚ) ≤ u → u ≤ n →
+    ∑ j ∈ range n, (j : ℚ) ^ 2 * cardinal (p + 2) (u - j)
+      = (u - (((p + 2 : ℕ) : ℚ) + 1) / 2) ^ 2 + (((p + 2 : ℕ) : ℚ) + 1) / 12 := by
+  induction p with
+  | zero =>
+    intro n u hlo hhi
+    have hlo' : ((1 : ℕ) : ℚ) + 1 ≤ u := by push_cast at hlo ⊢; linarith
+    have hs := sbp 1 n (le_refl 1) u hlo' hhi (fun j => (j : ℚ) ^ 2)
+    have hterm : ∀ j ∈ range n,
+        ((j : ℚ) ^ 2 * (u - j) + ((j - 1 : ℕ) : ℚ) ^ 2 * (((1 : ℕ) : ℚ) + 1 - u + j)) * cardinal 1 (u - j)
+          = (2 * u - 3) * ((j : ℚ) * cardinal 1 (u - j)) + (2 - u) * cardinal 1 (u - j) := by
+      intro j _
+      rcases Nat.eq_zero_or_pos j with h0 | hpos
+      · subst h0
+        simp only [Nat.cast_zero, sub_zero]
+        rw [cardinal_eq_zero_of_ge 1 u hlo']; ring
+      · have : ((j - 1 : ℕ) : ℚ) = (j : ℚ) - 1 := by rw [Nat.cast_sub hpos]; simp
+        rw [this]; push_cast; ring
+    rw [Finset.sum_congr rfl hterm, Finset.sum_add_distrib, ← Finset.mul_sum, ← Finset.mul_sum,
+      moment1 1 (le_refl 1) n u (by push_cast at hlo' ⊢; linarith) hhi,
+      sum_cardinal 1 n u (le_refl 1) (by push_cast at hlo' ⊢; linarith) hhi] at hs
+    have : ∑ j ∈ range n, (j : ℚ) ^ 2 * cardinal (0 + 2) (u - j)
+        = ((2 * u - 3) * (u - (((1 : ℕ) : ℚ) + 1) / 2) + (2 - u) * 1) / (((1 : ℕ) : ℚ) + 1) := by
+      rw [← hs]; field_simp
+    rw [this]; push_cast; field_simp; ring
+  | succ p ih =>
+    intro n u hlo hhi
+    have hq : 1 ≤ p + 2 := by omega
+    have hlo' : (((p + 2 : ℕ)) : ℚ) + 1 ≤ u := by push_cast at hlo ⊢; linarith
+    have hq1 : ((((p + 2 : ℕ)) : ℚ) + 1) ≠ 0 := by positivity
+    have hs := sbp (p + 2) n hq u hlo' hhi (fun j => (j : ℚ) ^ 2)
+    have hterm : ∀ j ∈ range n,
+        ((j : ℚ) ^ 2 * (u - j) + ((j - 1 : ℕ) : ℚ) ^ 2 * ((((p + 2 : ℕ)) : ℚ) + 1 - u + j))
+            * cardinal (p + 2) (u - j)
+          = ((p : ℚ) + 1) * ((j : ℚ) ^ 2 * cardinal (p + 2) (u - j))
+            + (2 * u - 2 * p - 5) * ((j : ℚ) * cardinal (p + 2) (u - j))
+            + ((p : ℚ) + 3 - u) * cardinal (p + 2) (u - j) := by
+      intro j _
+      rcases Nat.eq_zero_or_pos j with h0 | hpos
+      · subst h0
+        simp only [Nat.cast_zero, sub_zero]
+        rw [cardinal_eq_zero_of_ge (p + 2) u hlo']; ring
+      · have : ((j - 1 : ℕ) : ℚ) = (j : ℚ) - 1 := by rw [Nat.cast_sub hpos]; simp
+        rw [this]; push_cast; ring
+    rw [Finset.sum_congr rfl hterm, Finset.sum_add_distrib, Finset.sum_add_distrib, ← Finset.mul_sum,
+      ← Finset.mul_sum, ← Finset.mul_sum, ih n u (by push_cast at hlo ⊢; linarith) hhi,
+      moment1 (p + 2) hq n u (by push_cast at hlo ⊢; linarith) hhi,
+      sum_cardinal (p + 2) n u hq (by push_cast at hlo ⊢; linarith) hhi] at hs
+    have : ∑ j ∈ range n, (j : ℚ) ^ 2 * cardinal (p + 1 + 2) (u - j)
+        = (((p : ℚ) + 1) * ((u - (((p + 2 : ℕ) : ℚ) + 1) / 2) ^ 2 + (((p + 2 : ℕ) : ℚ) + 1) / 12)
+            + (2 * u - 2 * p - 5) * (u - (((p + 2 : ℕ) : ℚ) + 1) / 2) + ((p : ℚ) + 3 - u) * 1)
+          / ((((p + 2 : ℕ)) : ℚ) + 1) := by
+      rw [← hs]; field_simp
+    rw [this]; push_cast; field_simp; ring
+
+
+/-- B-spline expansions with polynomial coefficients `a₀ + a₁ j + a₂ j²` are polynomials of the
+same degree on the domain (degree `≥ 1`; `≥ 2` when `a₂ ≠ 0`). -/
+theorem spline_moments (dmin dmax : ℚ) (nfun p : ℕ) (hp1 : 1 ≤ p) (hp : p < nfun) (hd : dmin < dmax)
+    (x : ℚ) (hlo : dmin ≤ x) (hhi : x ≤ dmax) (a0 a1 a2 : ℚ) (h2 : a2 = 0 ∨ 2 ≤ p) :
+    ∑ j ∈ range nfun, (a0 + a1 * j + a2 * (j : ℚ) ^ 2) * bsplineBasis dmin dmax nfun p x j
+      = a0 + a1 * (ucoord dmin dmax nfun p x - ((p : ℚ) + 1) / 2)
+        + a2 * ((ucoord dmin dmax nfun p x - ((p : ℚ) + 1) / 2) ^ 2 + ((p : ℚ) + 1) / 12) := by
+  obtain ⟨hul, huh⟩ := ucoord_range dmin dmax nfun p hp hd x hlo hhi
+  set u := ucoord dmin dmax nfun p x with hu
+  have hterm : ∀ j ∈ range nfun, (a0 + a1 * j + a2 * (j : ℚ) ^ 2) * bsplineBasis dmin dmax nfun p x j
+      = a0 * cardinal p (u - j) + a1 * ((j : ℚ) * cardinal p (u - j))
+        + a2 * ((j : ℚ) ^ 2 * cardinal p (u - j)) := by
+    intro j hj
+    rw [bsplineBasis_eq_cardinal_u dmin dmax nfun p hp hd x j (mem_range.mp hj)]; ring
+  rw [Finset.sum_congr rfl hterm, Finset.sum_add_distrib, Finset.sum_add_distrib, ← Finset.mul_sum,
+    ← Finset.mul_sum, ← Finset.mul_sum, sum_cardinal p nfun u hp1 hul huh, moment1 p hp1 nfun u hul huh]
+  rcases h2 with h0 | h2
+  · rw [h0]; ring
+  · obtain ⟨q, rfl⟩ : ∃ q, p = q + 2 := ⟨p - 2, by omega⟩
+    rw [moment2 q nfun u hul huh]; push_cast; ring
+
 end FDA.BSpline
